@@ -159,7 +159,7 @@ func (a *ad) Drain() interface{} {
 	out := [][]int{}
 	for _, h := range a.his {
 		vals := []uint32{}
-		for l := 0; l <= fHi; l++ {
+		for l := 0; l <= 7200; l++ { // (the filler block and the scattered values of the random driver)
 			if a.r.Contains(v32(h, l)) {
 				vals = append(vals, v32(h, l))
 			}
@@ -180,17 +180,25 @@ type gen struct {
 func (g *gen) Init(rng *rand.Rand) json.RawMessage { *g = gen{}; return json.RawMessage(`{}`) }
 func (g *gen) Next(rng *rand.Rand, step int) core.Op {
 	his := genHis()
+	// low values: the three of the model, and values scattered over the range above the filler block, so that a
+	// densely stored bucket has runs of empty 64-bit words of every length between its members
+	low := func() int {
+		if rng.Intn(3) == 0 {
+			return 4096 + 64*rng.Intn(48) + []int{0, 1, 63}[rng.Intn(3)]
+		}
+		return []int{0, 1, 65535}[rng.Intn(3)]
+	}
 	switch x := rng.Intn(20); {
 	case x < 2:
 		return core.MkOp("Prefill", his[rng.Intn(len(his))])
 	case x < 3:
 		return core.MkOp("Unfill", his[rng.Intn(len(his))])
 	case x < 11:
-		return core.MkOp("Add", his[rng.Intn(len(his))], []int{0, 1, 65535}[rng.Intn(3)])
+		return core.MkOp("Add", his[rng.Intn(len(his))], low())
 	case x < 17:
-		return core.MkOp("Remove", his[rng.Intn(len(his))], []int{0, 1, 65535}[rng.Intn(3)])
+		return core.MkOp("Remove", his[rng.Intn(len(his))], low())
 	default:
-		return core.MkOp("Contains", his[rng.Intn(len(his))], []int{0, 1, 65535}[rng.Intn(3)])
+		return core.MkOp("Contains", his[rng.Intn(len(his))], low())
 	}
 }
 
